@@ -84,9 +84,10 @@ inline std::string decode(const std::string& b, File& F, bool allowLeadingZeros 
     size_t pos = F.paramOffset + 4; int guard = 0;
     while (true) {
         if (++guard > 100000) return "record chain does not terminate";
-        if (pos + 2 > b.size()) return "record chain runs past end of file";
+        if (pos + 1 > b.size()) return "record chain runs past end of file";
         int8_t nlen = (int8_t)b[pos];
         if (nlen == 0) { F.termOffset = pos; F.termByZeroName = true; break; }
+        if (pos + 2 > b.size()) return "record chain runs past end of file";
         Rec r; r.offset = pos; r.locked = nlen < 0; size_t n = (size_t)(nlen < 0 ? -nlen : nlen);
         int8_t gid = (int8_t)b[pos + 1]; r.isGroup = gid < 0; r.id = gid < 0 ? -gid : gid;
         if (pos + 2 + n + 2 > b.size()) return "record name runs past end of file";
